@@ -231,13 +231,24 @@ class OpenDocument:
         if name is None:
             return
         if elt.parentNode.qname in ((OFFICENS,u'styles'), (OFFICENS,u'automatic-styles')):
-            if name in self._styles_dict:
+            if self.__registered_style(name) not in (None, elt):
                 newname = u'M'+name # Rename style
                 self._styles_ooo_fix[name] = newname
                 # From here on all references to the old name will refer to the new one
                 name = newname
                 elt.setAttrNS(STYLENS, u'name', name)
             self._styles_dict[name] = elt
+
+    def __registered_style(self, name):
+        '''
+        The style registered under name, provided it is still in the document and
+        still bears that name (a style can be renamed after it was added)
+        '''
+        s = self._styles_dict.get(name)
+        if s is not None and (s.ownerDocument is not self or s.getAttrNS(STYLENS, u'name') != name):
+            del self._styles_dict[name]
+            s = None
+        return s
 
     def toXml(self, filename=u''):
         """
@@ -791,7 +802,14 @@ class OpenDocument:
         ncname = make_NCName(name)
         if self._styles_dict == {}:
             self.rebuild_caches()
-        result=self._styles_dict.get(ncname, None)
+        result=self.__registered_style(ncname)
+        if result is None:
+            # a style renamed after it was added is registered under its old name
+            for e in self.element_dict.get((STYLENS, u'style'), []):
+                if e.getAttrNS(STYLENS, u'name') == ncname and e.parentNode is not None and \
+                   e.parentNode.qname in ((OFFICENS,u'styles'), (OFFICENS,u'automatic-styles')):
+                    self._styles_dict[ncname] = result = e
+                    break
 
         assert(result is None or isinstance(result, element.Element))
         return result
